@@ -328,8 +328,28 @@ pub fn handle(st: &mut State, toks: &[&str]) -> HResult {
                 _ => a.symmetric_difference_len(b).to_string(),
             })
         }
-        ["tmulti", op, kind, d, items @ ..] => {
-            if !matches!(*op, "or" | "and" | "sub" | "xor") {
+        ["tmulti", op, kind, d, items @ ..] => tmulti(st, "exact", op, kind, d, items),
+        // tmultih <exact|lower0|unknown> …: the same operation fed from an iterator whose size_hint is exact,
+        // has lower bound 0 (a `filter` adapter) or is unknown (`from_fn`); the treemap multi-ops must not depend on it
+        ["tmultih", hint @ ("exact" | "lower0" | "unknown"), op, kind, d, items @ ..] => tmulti(st, hint, op, kind, d, items),
+        _ => None,
+    }
+}
+
+/// wraps an iterator so that its `size_hint` is exact / has lower bound 0 / is unknown
+fn adapt<'a, T: 'a>(it: impl Iterator<Item = T> + 'a, hint: &str) -> Box<dyn Iterator<Item = T> + 'a> {
+    match hint {
+        "exact" => Box::new(it),
+        "lower0" => Box::new(it.filter(|_| true)),
+        _ => {
+            let mut it = it;
+            Box::new(std::iter::from_fn(move || it.next()))
+        }
+    }
+}
+
+fn tmulti(st: &mut State, hint: &str, op: &str, kind: &str, d: &str, items: &[&str]) -> HResult {
+            if !matches!(op, "or" | "and" | "sub" | "xor") {
                 return None;
             }
             let i = slot('t', d)?;
@@ -345,7 +365,7 @@ pub fn handle(st: &mut State, toks: &[&str]) -> HResult {
                 }
             }
             parsed.reverse();
-            let is_res = match *kind {
+            let is_res = match kind {
                 "own" | "ref" => false,
                 "res_own" | "res_ref" => true,
                 _ => return None,
@@ -356,7 +376,7 @@ pub fn handle(st: &mut State, toks: &[&str]) -> HResult {
             let tm = &st.tm;
             macro_rules! run {
                 ($it:expr) => {
-                    match *op {
+                    match op {
                         "or" => $it.union(),
                         "and" => $it.intersection(),
                         "sub" => $it.difference(),
@@ -364,11 +384,11 @@ pub fn handle(st: &mut State, toks: &[&str]) -> HResult {
                     }
                 };
             }
-            let res: Result<RoaringTreemap, u64> = match *kind {
-                "own" => Ok(run!(parsed.iter().map(|p| tm[*p.as_ref().unwrap()].as_ref().unwrap().clone()))),
-                "ref" => Ok(run!(parsed.iter().map(|p| tm[*p.as_ref().unwrap()].as_ref().unwrap()))),
-                "res_own" => run!(parsed.iter().map(|p| p.map(|k| tm[k].as_ref().unwrap().clone()))),
-                _ => run!(parsed.iter().map(|p| p.map(|k| tm[k].as_ref().unwrap()))),
+            let res: Result<RoaringTreemap, u64> = match kind {
+                "own" => Ok(run!(adapt(parsed.iter().map(|p| tm[*p.as_ref().unwrap()].as_ref().unwrap().clone()), hint))),
+                "ref" => Ok(run!(adapt(parsed.iter().map(|p| tm[*p.as_ref().unwrap()].as_ref().unwrap()), hint))),
+                "res_own" => run!(adapt(parsed.iter().map(|p| p.map(|k| tm[k].as_ref().unwrap().clone())), hint)),
+                _ => run!(adapt(parsed.iter().map(|p| p.map(|k| tm[k].as_ref().unwrap())), hint)),
             };
             Some(match res {
                 Ok(v) => {
@@ -377,7 +397,4 @@ pub fn handle(st: &mut State, toks: &[&str]) -> HResult {
                 }
                 Err(e) => format!("err:{}", e),
             })
-        }
-        _ => None,
-    }
 }
